@@ -1,0 +1,49 @@
+//go:build verif
+
+package verifshim
+
+import (
+	"time"
+
+	"github.com/nsqio/nsq/internal/clusterinfo"
+	"github.com/nsqio/nsq/internal/http_api"
+	"github.com/nsqio/nsq/internal/lg"
+	"github.com/nsqio/nsq/internal/quantile"
+	"github.com/nsqio/nsq/internal/stringy"
+)
+
+// clusterinfo types (aliases: the harness builds values field by field and calls the
+// real methods Add / UnmarshalJSON / Search on them)
+type (
+	ClusterInfo   = clusterinfo.ClusterInfo
+	Producer      = clusterinfo.Producer
+	Producers     = clusterinfo.Producers
+	ProducerTopic = clusterinfo.ProducerTopic
+	TopicStats    = clusterinfo.TopicStats
+	ChannelStats  = clusterinfo.ChannelStats
+	ClientStats   = clusterinfo.ClientStats
+	PartialErr    = clusterinfo.PartialErr
+	ErrList       = clusterinfo.ErrList
+	E2eAggregate  = quantile.E2eProcessingLatencyAggregate
+)
+
+// NewClusterInfo builds a real ClusterInfo over a real http_api.Client with the given
+// connect / request timeouts (no TLS).
+func NewClusterInfo(connectTimeout, requestTimeout time.Duration) *ClusterInfo {
+	return clusterinfo.New(func(lg.LogLevel, string, ...interface{}) {}, http_api.NewClient(nil, connectTimeout, requestTimeout))
+}
+
+// IsPartialErr reports whether err is the "some upstreams failed" kind (as the nsqadmin
+// handlers test it) and how many errors it carries.
+func IsPartialErr(err error) (bool, int) {
+	pe, ok := err.(clusterinfo.PartialErr)
+	if !ok {
+		return false, 0
+	}
+	return true, len(pe.Errors())
+}
+
+// stringy
+func StringyAdd(s []string, a string) []string     { return stringy.Add(s, a) }
+func StringyUnion(s []string, a []string) []string { return stringy.Union(s, a) }
+func StringyUniq(s []string) []string              { return stringy.Uniq(s) }
